@@ -33,6 +33,11 @@ def sub_pairs(node, d):
             for k, v in d.items():
                 yield node.key, k
                 yield node.val, v
+    elif getattr(node, "is_model", False) and hasattr(node, "fields"):
+        if isinstance(d, cabc.Mapping):
+            for f in node.fields:
+                if f.name in d and f.node.hint is not None:
+                    yield f.node, d[f.name]
 
 
 def classify(node, d_spec, d_run, dt, sc, loader):
@@ -175,6 +180,11 @@ def _sub_values(node, child, x):
                 yield v
     elif isinstance(node, spec.DictT):
         yield from (x.keys() if child is node.key else x.values())
+    elif getattr(node, "is_model", False) and hasattr(node, "fields"):
+        view = node.view(x)
+        for f in node.fields:
+            if f.node is child and f.name in view:
+                yield view[f.name]
 
 
 def run_case(ctx, rng, idx):
